@@ -86,10 +86,18 @@ def resolve_anchor(src, anchor, body_open, body_close, loops, f):
 
 def apply_extra(rw, src, lo, hi, cfg, skip):
     """Configured token-pattern substitutions (cfg.extra)"""
+    toks = src.toks
+    # R18: `polynomial![a, b]` is expanded as its macro_rules definition in src/polynomial/mod.rs says:
+    #      $crate::polynomial::Polynomial::from_slice(&[a, b])
+    if getattr(cfg, "expand_polynomial_macro", False):
+        for k in range(lo, hi - 2):
+            if toks[k].kind == "ident" and toks[k].text == "polynomial" and toks[k + 1].text == "!" and toks[k + 2].text == "[":
+                close = src.pairs[k + 2]
+                rw.replace(k, k + 3, "Polynomial::from_slice(&[", "R18-polynomial-macro")
+                rw.replace(close, close + 1, "])", "R18-polynomial-macro")
     extra = getattr(cfg, "extra", None)
     if not extra:
         return
-    toks = src.toks
     for pat, rep, rule in extra:
         pt = [t.text for t in lex(pat)]
         for k in _find_pattern(src, pt, lo, hi):
@@ -114,7 +122,7 @@ def apply_body_rules(rw, src, f, body_open, body_close, loops, cfg):
         if not hits:
             raise Undecided(f"anchor lost: rewrite pattern {pat!r} not found in {f.key}")
         for k in hits:
-            rw.replace(k, k + len(pt), rep, rule)
+            rw.replace(k, k + len(pt), rep, rule, swallow=True)
     # R5-tail-loop: a `loop { .. break VALUE .. }` that is the function's tail expression: `break VALUE` -> `return VALUE`
     if f.opts.get("tail_loop_return"):
         tail = [lp for lp in loops if lp["kind"] == "loop" and lp["body_close"] == body_close - 1]
@@ -127,6 +135,21 @@ def apply_body_rules(rw, src, f, body_open, body_close, loops, cfg):
                 continue
             if toks[q].kind == "ident" and toks[q].text == "break" and toks[q + 1].text not in (";", "}", ",") and toks[q + 1].kind != "life":
                 rw.replace(q, q + 1, "return", "R5-tail-loop-break-value")
+    # R21: `for i in a..=b {`  ->  `for i in a..(b) + 1 {`   (vstd has no usable specification for RangeInclusive;
+    #      equal whenever b + 1 does not overflow, which Verus then has to prove)
+    for lp in loops:
+        if lp["kind"] != "for":
+            continue
+        k = lp["in"] + 1
+        while k < lp["body_open"]:
+            if toks[k].text in ("(", "["):
+                k = src.pairs[k] + 1
+                continue
+            if toks[k].text == "..=":
+                rw.replace(k, k + 1, "..(", "R21-inclusive-range")
+                rw.insert_after(lp["body_open"] - 1, ") + 1", "R21-inclusive-range")
+                break
+            k += 1
     # R12: `for x in &mut E {`  ->  `for x in E.iter_mut() {`   (IntoIterator for &mut Vec<T> is iter_mut())
     for lp in loops:
         if lp["kind"] == "for" and toks[lp["in"] + 1].text == "&" and toks[lp["in"] + 2].text == "mut":
